@@ -26,7 +26,7 @@ type C16Case struct {
 	Probes []C16Probe  `json:"probes"`
 }
 
-var c16Ops = []string{"get", "get", "insert", "insert", "update", "delete", "delete", "delabsent", "clone", "cursor", "min", "max", "ceil", "forward", "backward", "seekfirst"}
+var c16Ops = []string{"get", "get", "insert", "insert", "inserthigh", "insertlow", "insertlow", "update", "delete", "delete", "deletetop", "deletetop", "delabsent", "clone", "cursor", "min", "max", "ceil", "forward", "backward", "seekfirst"}
 
 func genC16(t *rapid.T, tier string) C16Case {
 	c := C16Case{Cfg: core.GenConfig(t, tier, core.GenOpts{Caches: []string{"none"}, Vals: []string{core.VInt, core.VString}})}
@@ -46,8 +46,11 @@ func enumC16(tier string, shard, nshards int, yield func(C16Case) bool) (bool, s
 		sizes = []int{600, 2500, 10000, 40000}
 	}
 	i := 0
-	for _, bf := range []uint{4, 16} {
+	for _, bf := range []uint{2, 4, 16} {
 		for _, n := range sizes {
+			if bf == 2 && n > 2500 {
+				continue
+			}
 			for r := 0; r < 4; r++ {
 				i++
 				if i%nshards != shard {
@@ -80,7 +83,8 @@ func runC16(c C16Case, o *run.Obs) error {
 			o.Label("aborted:base-failure")
 			return nil
 		}
-		for i := 0; i < c.Big; i++ {
+		// the tree holds the keys [Big/4, Big/4+Big): absent keys of every layer exist below and above
+		for i := c.Big / 4; i < c.Big/4+c.Big; i++ {
 			if err := w.Insert(t, i, i%5); err != nil {
 				o.Label("aborted:base-failure")
 				return nil
@@ -125,10 +129,10 @@ func runC16(c C16Case, o *run.Obs) error {
 			// the operation failing is not this property's subject
 			return errAbort
 		}
-		n := len(w.Store.DistinctLoads(mark))
+		n := countLoads(w, mark)
 		w.Store.TrimLog()
 		if bound >= 0 && n > bound {
-			return fmt.Errorf("%s: %s read %d distinct nodes, bound is %d", desc, what, n, bound)
+			return fmt.Errorf("%s: %s read %d nodes, bound is %d", desc, what, n, bound)
 		}
 		return nil
 	}
@@ -150,41 +154,83 @@ func runC16(c C16Case, o *run.Obs) error {
 		case "get":
 			var v interface{}
 			err = count(fmt.Sprintf("Get(%v)", key), h+1, func() error { _, e := lt.M.Get(core.Ctx, key, &v); return e })
-		case "insert", "update":
+		case "insert", "update", "inserthigh", "insertlow":
 			k2 := key
 			if pr.Op == "update" {
 				if pk, ok := present(); ok {
 					k2 = w.Pool[pk]
 				}
 			}
+			if pr.Op == "insertlow" {
+				// the absent key of the highest layer below the smallest present key (a new minimum that lands high up)
+				keys := lt.Model.Keys()
+				best, bk := -1, -1
+				for ki := range w.Pool {
+					if len(keys) > 0 && ki >= keys[0] {
+						break
+					}
+					if l := int(w.Cfg.RefLayer(w.Pool[ki])); l > best {
+						best, bk = l, ki
+					}
+				}
+				if bk < 0 {
+					continue
+				}
+				k2 = w.Pool[bk]
+			}
+			if pr.Op == "inserthigh" {
+				// an absent key of the highest layer, alternately the smallest and the largest such key
+				best, bk := -1, -1
+				for ki := range w.Pool {
+					if _, in := lt.Model[ki]; in {
+						continue
+					}
+					l := int(w.Cfg.RefLayer(w.Pool[ki]))
+					if l > best || (l == best && pr.K%2 == 1) {
+						best, bk = l, ki
+					}
+				}
+				if bk < 0 {
+					continue
+				}
+				k2 = w.Pool[bk]
+			}
 			mark := w.Store.Mark()
 			hb := lt.M.Height()
 			e := core.Safely("Insert", func() error { return lt.M.Insert(core.Ctx, k2, w.Cfg.MakeVal(7)) })
-			n := len(w.Store.DistinctLoads(mark))
+			n := countLoads(w, mark)
 			w.Store.TrimLog()
 			if e != nil {
 				o.Label("aborted:base-failure")
 				return nil
 			}
 			if lt.M.Height() == hb && n > 2*(h+1) {
-				err = fmt.Errorf("%s: Insert(%v) at unchanged height read %d distinct nodes, bound is %d", desc, k2, n, 2*(h+1))
+				err = fmt.Errorf("%s: Insert(%v) at unchanged height read %d nodes, bound is %d", desc, k2, n, 2*(h+1))
 			}
-		case "delete":
+		case "delete", "deletetop":
 			pk, ok := present()
 			if !ok {
 				continue
 			}
+			if pr.Op == "deletetop" {
+				best := -1
+				for _, ki := range lt.Model.Keys() {
+					if l := int(w.Cfg.RefLayer(w.Pool[ki])); l > best || (l == best && pr.K%2 == 1) {
+						best, pk = l, ki
+					}
+				}
+			}
 			mark := w.Store.Mark()
 			hb := lt.M.Height()
 			e := core.Safely("Delete", func() error { return lt.M.Delete(core.Ctx, w.Pool[pk], w.Cfg.MakeVal(lt.Model[pk])) })
-			n := len(w.Store.DistinctLoads(mark))
+			n := countLoads(w, mark)
 			w.Store.TrimLog()
 			if e != nil {
 				o.Label("aborted:base-failure")
 				return nil
 			}
 			if lt.M.Height() == hb && n > 2*(h+1) {
-				err = fmt.Errorf("%s: Delete(%v) at unchanged height read %d distinct nodes, bound is %d", desc, w.Pool[pk], n, 2*(h+1))
+				err = fmt.Errorf("%s: Delete(%v) at unchanged height read %d nodes, bound is %d", desc, w.Pool[pk], n, 2*(h+1))
 			}
 		case "delabsent":
 			ak, ok := core.AbsentKey(lt.Model, len(w.Pool), pr.K)
@@ -263,11 +309,22 @@ func init() {
 	run.Register(run.Prop[C16Case]{
 		ID:    "C16",
 		Level: "exploration",
-		Rule: "case = persisted tree (generated history over the key pools, bf 2-64, heights 0-5; plus an enumerated family of large trees of 600-2500 (thorough 40000) consecutive int keys at bf 4 and 16) re-opened WITHOUT cache for each of 1-8 probes (operation kind x key present/absent of any layer). Oracle: distinct names passed to Persist.Load during the single API call: LoadMast, Clone, Cursor() <= 1; Get <= h+1; Insert/Delete/failed Delete at unchanged height <= 2(h+1); on trees with more than 10*(4(h+1)+4) nodes a single cursor move / Min / Max / Ceil / a SeekIter stopped at its first entry <= 4(h+1)+4 (a deliberately generous sub-linear cap). " +
+		Rule: "case = persisted tree (generated history over the key pools, bf 2-64, heights 0-5; plus an enumerated family of large trees of 600-2500 (thorough 40000) consecutive int keys at bf 2, 4 and 16, with absent keys of every layer below and above the stored range) re-opened WITHOUT cache for each of 1-8 probes (operation kind x key present/absent of any layer, incl. inserts of the highest-layer absent key below the minimum / anywhere and deletes of the highest-layer present key). Oracle: number of Persist.Load calls during the single API call (reading a node twice counts twice): LoadMast, Clone, Cursor() <= 1; Get <= h+1; Insert/Delete/failed Delete at unchanged height <= 2(h+1); on trees with more than 10*(4(h+1)+4) nodes a single cursor move / Min / Max / Ceil / a SeekIter stopped at its first entry <= 4(h+1)+4 (a deliberately generous sub-linear cap). " +
 			"Non-trivial = height >= 2 AND the tree has >= 4(h+1) nodes; distinct by case hash",
 		Assumptions: []string{"each probe runs on a freshly opened tree so nothing is already in memory", "the un-numbered clause ('nothing else proportional to the tree') is checked with a generous sub-linear cap only on trees large enough to tell"},
 		Gen:         genC16,
 		Run:         runC16,
 		Enumerate:   enumC16,
 	})
+}
+
+// countLoads is the number of Persist.Load calls since mark: reading the same node twice is two reads.
+func countLoads(w *core.World, mark int) int {
+	n := 0
+	for _, c := range w.Store.Since(mark) {
+		if !c.Store {
+			n++
+		}
+	}
+	return n
 }
